@@ -262,6 +262,15 @@ def evaluate(ctx, cases):
                 "compiled.query(doc).select": lambda: list(jsonpath.compile(c["match"]).query(doc).select(*c["sel"], projection=style_v)),
                 "after a no-op chain": lambda: list(jsonpath.query(c["match"], doc).skip(0).limit(10 ** 6).select(*c["sel"], projection=style_v)),
             }
+            def split_by_other_select():
+                # a projection is lazy: asking the same Query object for another projection (never consumed) while this one
+                # is half-way must not change what this one goes on to produce
+                q = jsonpath.query(c["match"], doc)
+                s1 = q.select(*c["sel"], projection=style_v)
+                head = [x for _, x in zip(range(1), s1)]
+                q.select("$.nosuch", "$..*", "$[0]", projection=Projection.FLAT)
+                return head + list(s1)
+            forms["first item, then another select() on the same Query object, then the rest"] = split_by_other_select
             if c["style"] == "RELATIVE":
                 forms["default projection"] = lambda: list(jsonpath.query(c["match"], doc).select(*c["sel"]))
             for name, fn in forms.items():
